@@ -287,10 +287,21 @@ func classify(store string, key []byte) string {
 }
 
 // every mounted KV store (abci.StoreNames names the evidence store "evidence"; it is mounted as "customevidence")
-var storeNames = append(append([]string{}, abci.StoreNames...), "customevidence")
+var storeNames = func() []string {
+	out := append([]string{}, abci.StoreNames...)
+	for _, n := range out {
+		if n == "customevidence" {
+			return out
+		}
+	}
+	return append(out, "customevidence")
+}()
 
 func dumpStores(c *abci.Chain, ctx sdk.Context) map[string][]abci.KV {
 	out := c.DumpStores(ctx)
+	if _, done := out["customevidence"]; done {
+		return out
+	}
 	if key := c.App.GetKey("customevidence"); key != nil {
 		it := ctx.KVStore(key).Iterator(nil, nil)
 		var kvs []abci.KV
